@@ -1795,3 +1795,28 @@ Proof.
   - eapply pc_of_set_pc. rewrite Hthr. eauto.
   - destruct (store_set_pc s1 t (PDone RNotExist)) as (-> & _). apply Hnone. exact Hl.
 Qed.
+
+(** who stands behind an entry of the waiter table (what the race rounds of the
+    correspondence run read through the hook): every call registered on it is parked
+    for the version of the record stored under the key NOW, or has taken the ctx
+    branch (its context is done), or has taken the timer branch *)
+Theorem wait_entry_waiters_current : forall s k c n, reachable s -> tbl s k = Some (c, n) ->
+  closed s c = false /\ n = Z.of_nat (count_on k c (thr s)) /\ (1 <= n)%Z /\
+  forall t p, pc_of s t = Some p -> on_chan k c p = true ->
+    match p with
+    | PParked _ v _ tm => exists r, store s k = Some r /\ r_ver r = v /\ r_exp r = tm
+    | PCancelPending _ _ => ctx_of s t = true
+    | PExpiryPending _ _ _ => True
+    | PCheck _ _ | PDone _ => False
+    end.
+Proof.
+  intros s k c n R Hk. pose proof (reachable_Inv s R) as I.
+  destruct (tbl_accounting _ _ _ _ I Hk) as (Hcl & Hn & Hpos).
+  split; [exact Hcl|]. split; [exact Hn|]. split; [exact Hpos|].
+  intros t p Hp Hon. destruct (pc_of_some _ _ _ Hp) as (th & Ht & Hpc).
+  destruct p as [k' v|k' v c' tm|k' c'|k' v c'|r]; cbn [on_chan] in Hon; try discriminate.
+  - apply andb_true_iff in Hon as [Hk' Hc']. apply Nat.eqb_eq in Hk', Hc'. subst k' c'.
+    destruct (inv_p _ I _ _ _ _ _ _ Ht Hpc Hcl) as [_ Hr]. exact Hr.
+  - unfold ctx_of. rewrite Ht. eapply (inv_c _ I); eauto.
+  - exact Logic.I.
+Qed.
